@@ -18,6 +18,10 @@ def fee_rate(cfg):
     fee = cfg["fee"]
     if fee["kind"] == "zero":
         return F0
+    if fee["kind"] == "subzero":
+        return frac(fee["c"])
+    if fee["kind"] == "subpct":
+        return frac(fee["c"]) + frac(fee["t2"])
     return frac(fee["c"]) + frac(fee["t"])
 
 
@@ -231,7 +235,8 @@ def judge_c08(cfg, market, out, ctx):
                 pending = orders
         if typ == "market_close" and (burn is None or t >= burn):
             m = mv(t)
-            exp_equity.append((t, None if m is None else cash + m))
+            # the curve is the ACCOUNT's equity: a cash sleeve portfolio opened before the run is part of it
+            exp_equity.append((t, None if m is None else cash + m + frac(cfg.get("sleeve") or 0)))
     # ---- fills, per instant, as multisets --------------------------------------------------
     for t in sorted(set(exp_fills) | set(impl_by_t)):
         e = sorted(exp_fills.get(t, []), key=lambda z: (z[0], z[1]))
